@@ -377,3 +377,105 @@ Section MaxSplit.
     split_at_chars m (Some n) keep skipnone lm list_end l = Ok res -> length res <= S n.
   Proof. intros H. eapply split_loop_count; [exact H | cbn; lia]. Qed.
 End MaxSplit.
+
+(** ** max_split = n against the unlimited split (keep_empty = True) *)
+Section MaxSplitPrefix.
+  Variable m : matcher.
+  Variable skipnone : bool.
+  Variable lm : nmode.
+  Variable list_end : option nat.
+  Variable n : nat.
+
+  (** the loops only ever append to the list of parts *)
+  Lemma chars_loop_prefix ms keep orig p chars : forall fuel prev parts pend parts' pend',
+    chars_loop m ms keep lm fuel orig p chars prev parts pend = Ok (parts', pend') ->
+    exists np, parts' = parts ++ np.
+  Proof.
+    induction fuel as [|f IH]; intros prev parts pend parts' pend' H; [discriminate|].
+    cbn [chars_loop] in H.
+    destruct (next_split m ms (length parts) chars prev) as [[i j]|].
+    - destruct (negb (Nat.leb prev i && Nat.ltb i j)); [discriminate|].
+      destruct (Nat.eqb prev 0); apply IH in H; destruct H as [np E]; subst parts';
+        (destruct (_ || keep); [rewrite <- app_assoc; eexists; reflexivity | eexists; reflexivity]).
+    - destruct (Nat.eqb prev 0); inversion H; subst; exists []; rewrite app_nil_r; reflexivity.
+  Qed.
+
+  (** once [n] parts exist, a chars node produces no further part *)
+  Lemma chars_loop_maxed keep orig p chars fuel prev parts pend parts' pend' :
+    n <= length parts ->
+    chars_loop m (Some n) keep lm fuel orig p chars prev parts pend = Ok (parts', pend') ->
+    parts' = parts.
+  Proof.
+    intros L H. destruct fuel as [|f]; [discriminate|]. cbn [chars_loop] in H.
+    unfold next_split, maxed in H. apply Nat.leb_le in L. rewrite L in H.
+    destruct (Nat.eqb prev 0); inversion H; reflexivity.
+  Qed.
+
+  Definition lock (pn : list node) (qn : items) (pf : list node) (qf : items) : Prop :=
+    length pn <= n /\ ((pn = pf /\ qn = qf) \/ (length pn = n /\ exists extra, pf = pn ++ extra)).
+
+  Lemma chars_loop_lock orig p chars : forall fuel prev parts pend pn qn pf qf,
+    length parts <= n ->
+    chars_loop m (Some n) true lm fuel orig p chars prev parts pend = Ok (pn, qn) ->
+    chars_loop m None true lm fuel orig p chars prev parts pend = Ok (pf, qf) ->
+    lock pn qn pf qf.
+  Proof.
+    induction fuel as [|f IH]; intros prev parts pend pn qn pf qf L Hn Hf; [discriminate|].
+    destruct (Nat.leb n (length parts)) eqn:MX.
+    - apply Nat.leb_le in MX.
+      apply chars_loop_maxed in Hn; [|exact MX]. apply chars_loop_prefix in Hf. destruct Hf as [np E].
+      subst. split; [exact L|]. right. split; [lia|]. exists np. reflexivity.
+    - cbn [chars_loop] in Hn, Hf. unfold next_split, maxed in Hn, Hf. rewrite MX in Hn.
+      apply Nat.leb_gt in MX.
+      destruct (m chars prev) as [[i j]|].
+      + destruct (negb (Nat.leb prev i && Nat.ltb i j)); [discriminate|].
+        destruct (Nat.eqb prev 0); rewrite orb_true_r in Hn, Hf;
+          (eapply IH; [|exact Hn|exact Hf]; rewrite app_length; cbn; lia).
+      + destruct (Nat.eqb prev 0); inversion Hn; inversion Hf; subst;
+          (split; [lia|]; left; split; reflexivity).
+  Qed.
+
+  Lemma split_loop_lock : forall l pn qn pf qf rn rf,
+    lock pn qn pf qf ->
+    split_loop m (Some n) true skipnone lm list_end l pn qn = Ok rn ->
+    split_loop m None true skipnone lm list_end l pf qf = Ok rf ->
+    firstn n rn = firstn n rf /\ length rn = Nat.min (length rf) (S n).
+  Proof.
+    induction l as [|o l IH]; intros pn qn pf qf rn rf [L R] Hn Hf.
+    - cbn [split_loop] in Hn, Hf. rewrite orb_true_r in Hn, Hf. inversion Hn; inversion Hf; subst. clear Hn Hf.
+      destruct R as [[E1 E2]|[E1 [extra E2]]]; [subst pf qf | subst pf].
+      + split; [reflexivity|]. rewrite app_length. cbn [length]. lia.
+      + split.
+        * rewrite <- app_assoc. rewrite !firstn_app. rewrite E1, Nat.sub_diag. cbn [firstn].
+          rewrite <- E1, firstn_all. reflexivity.
+        * rewrite !app_length. cbn [length]. lia.
+    - destruct o as [nd|].
+      + destruct nd; cbn [split_loop] in Hn, Hf;
+          try (eapply IH; [|exact Hn|exact Hf]; split; [exact L|];
+               destruct R as [[E1 E2]|R]; [left; subst; split; reflexivity | right; exact R]; fail);
+          [|discriminate].
+        destruct (chars_loop m (Some n) true lm (S (length chars)) (NChars p e m0 chars) p chars 0 pn qn)
+          as [[pn1 qn1]|] eqn:CN; [|discriminate].
+        destruct (chars_loop m None true lm (S (length chars)) (NChars p e m0 chars) p chars 0 pf qf)
+          as [[pf1 qf1]|] eqn:CF; [|discriminate].
+        eapply IH; [|exact Hn|exact Hf].
+        destruct R as [[E1 E2]|[E1 [extra E2]]]; [subst pf qf | subst pf].
+        * eapply chars_loop_lock; [exact L|exact CN|exact CF].
+        * apply chars_loop_maxed in CN; [|lia]. apply chars_loop_prefix in CF. destruct CF as [np E]. subst pn1 pf1.
+          split; [exact L|]. right. split; [exact E1|]. exists (extra ++ np). rewrite app_assoc. reflexivity.
+      + cbn [split_loop] in Hn, Hf. eapply IH; [|exact Hn|exact Hf]. split; [exact L|].
+        destruct R as [[E1 E2]|R]; [left; subst; split; reflexivity | right; exact R].
+  Qed.
+
+  (** C18_max_split (prefix): the first [n] parts are those of the unlimited
+      split, and there is exactly one more part (the unsplit remainder) when
+      the unlimited split has more than [n] parts *)
+  Theorem split_max_prefix l rn rf :
+    split_at_chars m (Some n) true skipnone lm list_end l = Ok rn ->
+    split_at_chars m None true skipnone lm list_end l = Ok rf ->
+    firstn n rn = firstn n rf /\ length rn = Nat.min (length rf) (S n).
+  Proof.
+    intros Hn Hf. eapply split_loop_lock; [|exact Hn|exact Hf].
+    split; [cbn; lia|]. left. split; reflexivity.
+  Qed.
+End MaxSplitPrefix.
